@@ -180,7 +180,7 @@ def run(ctx):
                 foldfails.append({"input": t, "diff": "parse_string failed (%s) but CxxParser+SimpleCxxVisitor succeeded" % e})
         # faults
         n = len(r["events"])
-        positions = range(1, n) if (ctx.tier == "thorough" or ctx.escalated or n <= 6) else sorted(set([1, n - 1] + [rng.randint(1, n - 1) for _ in range(3)])) if n > 1 else []
+        positions = range(1, n) if (ctx.tier == "thorough" or n <= 6) else sorted(set([1, n - 1] + [rng.randint(1, n - 1) for _ in range(3)])) if n > 1 else []
         for i in positions:
             nfault += 1
             rf = impl.impl_parse(t, "f.h", fault=i)
